@@ -44,6 +44,9 @@ func genC19(t *rapid.T) C19Case {
 		w := rapid.SampledFrom([]string{"past", "future", "narrow"}).Draw(t, "encWindow")
 		c.SP.Enc.Field.Window, c.SP.Enc.Setter.Window = w, w
 	}
+	if c.SP.ShareFieldStore {
+		c.SP.Sig.Field = c.SP.Enc.Field // one store object: the signing description follows the field
+	}
 	if rapid.IntRange(0, 2).Draw(t, "namedZone") == 0 {
 		// a clock in a DST-observing zone, close to a transition (calendar arithmetic differs from 168 h there)
 		c.SP.NowZone = rapid.SampledFrom([]string{"America/New_York", "Europe/Berlin", "Australia/Lord_Howe", "America/Sao_Paulo", "Pacific/Chatham"}).Draw(t, "zone")
